@@ -35,6 +35,10 @@ source_for(const std::string &profile, const std::string &prop, int tier)
                         }
                 };
         }
+        if (profile == "desc") {
+                // C14: one run in eight walks the direct-API catalogue (error code cleared by a following valid call)
+                s.make = [pc](uint64_t run_seed, uint64_t idx) { return (idx % 8 == 7) ? gen_plan_dmisuse(pc, run_seed) : gen_plan(pc, run_seed); };
+        }
         if (profile == "ref_chain") {
                 // C06: every other run is devoted to one cell of the table (cipher, key size, direction) x hash x chain order,
                 // chosen by a seeded index, together with one randomly chosen second suite so that lanes are shared
